@@ -180,7 +180,7 @@ func parseSpsBasic(br *nazabits.BitReader, sps *Sps) error {
 
 func parseSpsGamma(br *nazabits.BitReader, sps *Sps) (err error) {
 	switch sps.ProfileIdc {
-	case 100, 110, 122, 244, 44, 83, 86, 118, 128, 138, 139, 134:
+	case 100, 110, 122, 244, 44, 83, 86, 118, 128, 138, 139, 134, 135:
 		sps.ChromaFormatIdc, err = br.ReadUeGolomb() // chroma_format_idc
 		if err != nil {
 			return nazaerrors.Wrap(err)
